@@ -30,6 +30,9 @@ type sendPlan struct {
 	Prio  gen.MessagePriority
 	Delay int // ms, delayed only
 	Cncl  int // 100us units, delayed only; -1 no cancel
+	// Gone: the process that armed the delayed send terminates before the delay is over (the
+	// send was accepted and never cancelled: it still takes place)
+	Gone bool
 }
 
 func propDelivery(t *rapid.T) {
@@ -59,6 +62,9 @@ func propDelivery(t *rapid.T) {
 				p.Kind = 4
 				p.Delay = rapid.IntRange(0, 4).Draw(t, "delay_ms")
 				p.Cncl = rapid.IntRange(-1, 60).Draw(t, "cancel_100us")
+				if p.Cncl < 0 {
+					p.Gone = rapid.Bool().Draw(t, "armed_by_a_process_that_terminates")
+				}
 			}
 			plans[i] = append(plans[i], p)
 		}
@@ -208,9 +214,18 @@ func propDelivery(t *rapid.T) {
 					err = node.SendEvent(evName, token, gen.MessageOptions{Priority: p.Prio}, m)
 				case 4:
 					var cancel gen.CancelFunc
-					e := kit.InProc(node, senders[i], func(a *kit.Actor) {
+					armer := senders[i]
+					if p.Gone {
+						if tmp, serr := node.Spawn(kit.Factory(&kit.ActorConfig{Label: "armer", Probe: probe, Quiet: true}), gen.ProcessOptions{}); serr == nil {
+							armer = tmp
+						}
+					}
+					e := kit.InProc(node, armer, func(a *kit.Actor) {
 						cancel, err = a.SendAfter(to, m, time.Duration(p.Delay)*time.Millisecond)
 					})
+					if p.Gone && armer != senders[i] {
+						node.Kill(armer)
+					}
 					if e != nil || err != nil {
 						if err == nil {
 							err = e
